@@ -126,7 +126,7 @@ func pubsubC06(c *Ctx) {
 			first := loads[0].(*ssa.Call)
 			ifs, negs := P.IfsOn(q.fn, func(cond ssa.Value) bool {
 				b, ok := cond.(*ssa.BinOp)
-				return ok && b.Op == token.EQL && b.X == ssa.Value(first) && isZero(b.Y)
+				return ok && b.Op == token.EQL && either(b, isVal(first), isZero)
 			})
 			okf := len(ifs) == 1
 			if okf {
@@ -379,7 +379,7 @@ func pubsubC07(c *Ctx) {
 			okphi := false
 			ifs, negs := P.IfsOn(q.fn, func(cond ssa.Value) bool {
 				b, ok := cond.(*ssa.BinOp)
-				return ok && b.Op == token.EQL && b.X == ssa.Value(res) && isZero(b.Y)
+				return ok && b.Op == token.EQL && either(b, isVal(res), isZero)
 			})
 			if len(ifs) == 1 {
 				ts := 0
